@@ -116,6 +116,11 @@ def check_stmt_forward(src: PRec, dst: PRec, site, desc, hist, stats):
         Fs = [F]
     if not all(isinstance(f, LoopIR.stmt) for f in Fs):
         raise Violation(blame(desc, "stmt", "kind-changed"), f"{where}: forwarded to a non-statement {type(Fs[0]).__name__}")
+    if occ and len(src.pos.get(id(N), [])) > 1:
+        # the same statement OBJECT occurs several times in the source tree (e.g. main and
+        # tail loop of divide_loop share untouched statements): identity is ambiguous
+        stats["stmt-identity-ambiguous"] += 1
+        occ = []
     if occ:
         if len(occ) == 1 and not any(f is N for f in Fs):
             raise Violation(
